@@ -174,6 +174,9 @@ type Spec struct {
 	Emitters    int    `json:"emitters,omitempty"` // number of recording emitters passed
 	EmitNest    bool   `json:"emitnest,omitempty"` // some of them wrapped in nested cff.EmitterStack
 	AutoInstr   bool   `json:"autoinstr,omitempty"`
+	// AutoNames maps a task unit to the name -auto-instrument implies for it
+	// ("<file>.<line of the task function expression>"), filled by the renderer.
+	AutoNames map[int]string `json:"autonames,omitempty"`
 
 	Order  []int  `json:"order,omitempty"`  // listing order of the options (a permutation)
 	Units  int    `json:"units"`            // number of units
